@@ -223,6 +223,9 @@ class Slice(object):
     def _run_negative_islice(self, flow):
         from collections import deque
         start, stop, step = self._start, self._stop, self._step
+        # the flow is consumed in several steps: a container
+        # (not an iterator) would be read from its start each time
+        flow = iter(flow)
 
         def fill_deque(flow, maxlen):
             # Fill a deque with exactly maxlen values from *flow*
